@@ -12,9 +12,9 @@ import (
 )
 
 type Obs struct {
-	Kind     string `json:"kind"` // "value" | "throw" | "crash" | "broken"
-	Res      string `json:"res,omitempty"`  // json_encode of the result
-	Hex      string `json:"hex,omitempty"`  // bin2hex of the result when it is a string
+	Kind     string `json:"kind"`          // "value" | "throw" | "crash" | "broken"
+	Res      string `json:"res,omitempty"` // json_encode of the result
+	Hex      string `json:"hex,omitempty"` // bin2hex of the result when it is a string
 	IsStr    bool   `json:"is_str,omitempty"`
 	After    string `json:"after,omitempty"` // json_encode of the receiver afterwards
 	Trace    string `json:"trace,omitempty"`
